@@ -9,8 +9,9 @@ out=${1:-/tmp/validate_seeds.txt}
 ls -d seeded/*/ | xargs -P 4 -I{} bash -c '
   d={}; name=$(basename $d)
   prop=$(python3 -c "import json;print(json.load(open(\"$d/meta.json\"))[\"breaks\"])")
+  if grep -q "\"base_commit\"" $d/meta.json; then echo "$name SUPERSEDED (applies to an earlier /repo commit only, see meta.json)" >> '"$out"'; exit 0; fi
   r=$(/verif/scripts/try_mutant.sh $d/patch.diff $prop 2>&1 | grep -E "DETECTED|MISSED|PATCH|BUILD" | cut -c1-160)
   echo "$name $r" >> '"$out"'
 '
 sort "$out"
-echo "detected=$(grep -c DETECTED "$out") missed=$(grep -c MISSED "$out") total=$(ls -d seeded/*/ | wc -l)"
+echo "detected=$(grep -c DETECTED "$out") missed=$(grep -c MISSED "$out") superseded=$(grep -c SUPERSEDED "$out") total=$(ls -d seeded/*/ | wc -l)"
